@@ -10,6 +10,7 @@
                    loc = sequence of triples: C -> one triple of reals (as strings), I -> one triple of integers (LOCAL
                    indices), M -> one integer triple per sub-location, N -> <<>>      (grids/locations.py)
      lg            node that owns the grid the locator lives in (0 = no grid)       (locator.grid.armiObject)
+                   -- the parent for I and M; 0 or the parent for C (a CoordinateLocation may carry its parent's grid)
      grid          the node's own spatialGrid: [raw, obs, ax];  raw = (class name, reduce()) -- the writer's
                    deduplication key --, obs = the same with the public geomType/symmetry, ax = isAxialOnly; NoGrid if none
      cmp, ck       is a Component; its sort key (dense ranks of bounding-circle OD and inner diameter, cold)
@@ -106,7 +107,9 @@ WellFormed(t) == /\ IsTree(t)
                  /\ LET pm == ParentMap(t) IN
                     \A n \in Ix(t) : /\ t[n].lk \in {"N", "C", "I", "M"}
                                     /\ ((t[n].lk \in {"I", "M"}) => (t[n].lg # 0 /\ t[n].lg = pm[n] /\ t[t[n].lg].grid # NoGrid))
-                                    /\ ((t[n].lk \in {"N", "C"}) => (t[n].lg = 0))
+                                    /\ ((t[n].lk = "N") => (t[n].lg = 0))
+                                    \* a CoordinateLocation may or may not be attached to its parent's grid
+                                    /\ ((t[n].lk = "C") => (t[n].lg = 0 \/ (t[n].lg = pm[n] /\ t[t[n].lg].grid # NoGrid)))
                                     /\ Len(t[n].loc) = (CASE t[n].lk = "N" -> 0 [] t[n].lk = "M" -> Len(t[n].loc) [] OTHER -> 1)
 
 Pos(seq, x) == CHOOSE i \in Ix(seq) : seq[i] = x
@@ -145,7 +148,7 @@ Flatten(t) ==
         material     |-> [i \in Ix(ord) |-> nd(i).mat],
         temperatures |-> [i \in Ix(ord) |-> IF nd(i).tmp = <<>> THEN NoTemp ELSE nd(i).tmp],
         \* ghost: the values the parameter codec (C05) is given, in file order
-        par          |-> [i \in Ix(ord) |-> [cmp |-> nd(i).cmp, ck |-> nd(i).ck, pd |-> nd(i).pd, pn |-> nd(i).pn,
+        par          |-> [i \in Ix(ord) |-> [cmp |-> nd(i).cmp, cin |-> (nd(i).lk = "C" /\ nd(i).lg # 0), ck |-> nd(i).ck, pd |-> nd(i).pd, pn |-> nd(i).pn,
                                            pp |-> nd(i).pp, oc |-> nd(i).oc, od |-> nd(i).od, om |-> nd(i).om]]])
 
 \* what h5py shows in layout/*
@@ -197,7 +200,9 @@ Unflatten(f) ==
            loc  |-> CASE f.ltype[i] = "N" -> <<>>
                       [] f.ltype[i] = "I" -> IF adds(i) THEN <<Sub3(rowsOf(i)[1], rowsOf(par[i])[1])>> ELSE rowsOf(i)
                       [] OTHER -> rowsOf(i),
-           lg   |-> IF f.ltype[i] \in {"I", "M"} THEN par[i] ELSE 0,          \* _compose: parent.spatialGrid[location]
+           \* index locators live in the parent's grid (_compose: parent.spatialGrid[location]); free coordinates keep
+           \* the attachment they had (ghost cin: layout/* has no place for it, the statement still requires it)
+           lg   |-> IF f.ltype[i] \in {"I", "M"} \/ (f.ltype[i] = "C" /\ f.par[i].cin) THEN par[i] ELSE 0,
            grid |-> grid(i),
            cmp  |-> f.par[i].cmp, ck |-> f.par[i].ck,
            mat  |-> f.material[i],
